@@ -137,6 +137,11 @@ class G:
             n = self.d(st.integers(2, 3))
             return ("tupidx", self.seq([lambda m: self.int_tree(D, nl=m)] * n, nl), self.d(st.integers(0, n - 1)))
         if r == 12:
+            if self.d(st.integers(0, 2)) == 0:
+                # nested subscript read: unless known shapes are allowed, at most one index has an effect
+                i1 = self.int_tree(D, small=(0, 1), nl=nl)
+                i2 = self.int_tree(D, small=(0, 1), nl=nl, pure=(not self.allow_known and has_effect(i1)))
+                return ("sub2", i1, i2)
             return ("sub", self.int_tree(D, small=(0, 2), nl=nl))
         if r == 13:
             a, b = self.seq([lambda n: self.int_tree(D, nl=n), lambda n: self.bool_tree(D, nl=n)], nl)
@@ -263,6 +268,8 @@ def render(t):
         return "(" + ", ".join(render(x) for x in t[1]) + f")[{t[2]}]"
     if k == "sub":
         return f"xs[{render(t[1])}]"
+    if k == "sub2":
+        return f"xss[{render(t[1])}][{render(t[2])}]"
     if k == "field":
         return f"P({render(t[1])}, {render(t[2])}).a"
     if k == "walrus":
@@ -294,6 +301,8 @@ def children(t):
         return [t[2], t[3]]
     if k in ("neg", "not", "sub"):
         return [t[1]]
+    if k == "sub2":
+        return [t[1], t[2]]
     if k == "g2":
         return [t[1], t[2]]
     if k == "g3":
@@ -351,6 +360,8 @@ def issues(t):
         for mid in t[2][1:-1]:
             if has_effect(mid):
                 out.add("chain_middle_effect")
+    if k == "sub2" and has_effect(t[1]) and has_effect(t[2]):
+        out.add("nested_subscript_order")
     if k not in ("ifexp", "and", "or"):
         # operands evaluated in sequence in the same block
         for i, a in enumerate(cs):
@@ -405,8 +416,8 @@ def _one(draw, allow_known=False, max_depth=4, prefix="", allow_boom=True):
                 iss = issues(("and", [("blit", True), ts[0]]))
             elif kind == "return":
                 ts = [g.int_tree()]
-                fdefs.append(f"@guppy\ndef {prefix}f{si}(xs: array[int, 3]) -> int:\n    return {render(ts[0])}\n")
-                st_lines = [f'result("r", {prefix}f{si}(xs))']
+                fdefs.append(f"@guppy\ndef {prefix}f{si}(xs: array[int, 3], xss: array[array[int, 2], 2]) -> int:\n    return {render(ts[0])}\n")
+                st_lines = [f'result("r", {prefix}f{si}(xs, xss))']
                 iss = issues(ts[0])
             elif kind == "args":
                 ts = g.seq([lambda n: g.int_tree(1, nl=n), lambda n: g.bool_tree(1, nl=n), lambda n: g.int_tree(1, nl=n)], False)
